@@ -70,9 +70,9 @@ def values_for(dt):
         names = sorted(dt.enumerations, key=lambda k: dt.enumerations[k])[:3]
         return names
     if issubclass(dt, (Real, Double)):
-        return [1.5, -20.0, 72.25]
+        return [1.5, -20.0, 0.0]
     if issubclass(dt, Unsigned):
-        return [1, 2, 7]
+        return [1, 0, 7]
     if issubclass(dt, Integer):
         return [-5, 0, 9]
     if issubclass(dt, BitString):
